@@ -38,7 +38,8 @@ def worker_init():
 
 def configs():
     out = []
-    for tl in (["CAR", "PEDESTRIAN"], ["CAR", "PEDESTRIAN", "UNKNOWN"], None, ["PEDESTRIAN", "CAR"]):
+    # [CAR, CAR, PEDESTRIAN]: what merge_similar_labels produces from car/bus/pedestrian (a label decides by its first entry)
+    for tl in (["CAR", "PEDESTRIAN"], ["CAR", "PEDESTRIAN", "UNKNOWN"], None, ["PEDESTRIAN", "CAR"], ["CAR", "CAR", "PEDESTRIAN"]):
         n = len(tl) if tl else 0
         for bounds_ in (None, "xy", "ring"):
             if bounds_ and not tl:
@@ -48,6 +49,8 @@ def configs():
                     for uu in (None, ["u1"]):
                         for ign in (None, ["ign"]):
                             if (conf or pts) and not tl:
+                                continue
+                            if tl and len(tl) != len(set(tl)) and (uu or ign):
                                 continue
                             c = dict(target_labels=tl, ignore_attributes=ign, uuids=uu)
                             if bounds_ == "xy":
